@@ -11,7 +11,7 @@ import gmx_common as G
 
 os.environ.setdefault("TQDM_DISABLE", "1")      # Actuator.run draws a progress bar per whole run
 PROPERTY = "C17"
-LEAN_MODULES = ["Proofs.C17", "Proofs.C17.V1Fee", "Proofs.C17.V2", "Proofs.C17.Bars", "Proofs.C17.V1Round", "Proofs.C17.V1RoundPy", "Proofs.C17.V1Seq", "Proofs.C17.V2Ops", "Proofs.C17.V1RoundAny", "Proofs.C17.V1RoundDiff", "Proofs.C17.V1FeeEnv", "Proofs.C17.Ledger"]
+LEAN_MODULES = ["Proofs.C17", "Proofs.C17.V1Fee", "Proofs.C17.V2", "Proofs.C17.Bars", "Proofs.C17.V1Round", "Proofs.C17.V1RoundPy", "Proofs.C17.V1Seq", "Proofs.C17.V2Ops", "Proofs.C17.V1RoundAny", "Proofs.C17.V1RoundDiff", "Proofs.C17.V1FeeEnv", "Proofs.C17.Ledger", "Proofs.C17.V1TripAny"]
 DRIVERS = ["driver_gmx"]
 RULE = ("v1: rows = the two recorded CSV days (sampled, optionally with one token's USDG amount moved to 0/0.3/1∓1e-6/1/1.7/3.2 x target) and synthetic "
         "rows (1-7 tokens, weights incl. 0, USDG supply 0/tiny/1e20-1e27, per-token USDG at 0-4 x target, AUM/GLP incl. 0, glp_price consistent with "
